@@ -437,6 +437,27 @@ type decodeVerdict struct {
 
 // judgeDecode runs dns.DecodeMessage on body under the guard. A run that
 // exceeds a bound is only believed after it did so three times.
+// allocOutOfProportion measures what one decode allocates (on this goroutine)
+// and compares it with a bound that is linear in the message length with very
+// generous constants: memory must follow the bytes actually present, not the
+// numbers a peer writes into count or length fields. Confirmed three times.
+func allocOutOfProportion(body []byte) (bool, uint64, uint64) {
+	bound := uint64(64<<10) + 1024*uint64(len(body))
+	worst := uint64(0)
+	for i := 0; i < 3; i++ {
+		var a, b runtime.MemStats
+		runtime.ReadMemStats(&a)
+		core.Guard(func() { dns.DecodeMessage(body) })
+		runtime.ReadMemStats(&b)
+		d := b.TotalAlloc - a.TotalAlloc
+		if d <= bound {
+			return false, d, bound
+		}
+		worst = max(worst, d)
+	}
+	return true, worst, bound
+}
+
 func judgeDecode(g *decodeGuard, body []byte, quickAbort bool) decodeVerdict {
 	var m *dns.Message
 	var err error
@@ -856,6 +877,12 @@ func executeMutate(t *testing.T, prop string, pl *Plan) *core.Result {
 		}
 		core.Beat()
 		v := judgeDecode(g, c.body, false)
+		if (v.status == "ok" || v.status == "err") && (p.Family == "counts" || i%97 == 0) {
+			if bad, got, bound := allocOutOfProportion(c.body); bad {
+				v = decodeVerdict{status: "balloon", site: "dns.DecodeMessage allocates out of proportion to the message length", detail: fmt.Sprintf("%d octets allocated for a %d-octet message (bound %d)", got, len(c.body), bound)}
+			}
+			counts["alloc_measured"]++
+		}
 		res.Evals++
 		counts["decode_"+v.status]++
 		switch v.status {
@@ -936,7 +963,7 @@ func finishC12(res *core.Result, kind string, counts map[string]int, sigs map[ui
 	for _, k := range ks {
 		log = append(log, fmt.Sprintf("%s=%d", k, counts[k]))
 		switch k {
-		case "decode_ok", "decode_err", "resolve_ok", "resolve_err", "survived", "skipped_cycle_after_report", "pointer_into_label", "pointer_chain_ge3", "pointer_cycle":
+		case "decode_ok", "decode_err", "resolve_ok", "resolve_err", "survived", "skipped_cycle_after_report", "pointer_into_label", "pointer_chain_ge3", "pointer_cycle", "alloc_measured":
 			res.ProbeN(k, counts[k])
 		}
 	}
